@@ -304,13 +304,13 @@ def rnd_net(seed, profile="full_mix", overrides=None):
         b = int(net.ext_grid.bus.iloc[0])
         s_ = _scale(net.bus.vn_kv.at[b])
         kw = {}
-        if r2.random() < 0.6:
+        if r2.random() < 0.6 and P["zip_load"] > 0:      # (callers that exclude voltage dependent loads get none here either)
             zp = r2.uniform(0, 100); zq = r2.uniform(0, 100)
             kw = dict(const_z_p_percent=zp, const_i_p_percent=r2.uniform(0, 100 - zp), const_z_q_percent=zq, const_i_q_percent=r2.uniform(0, 100 - zq))
         pp.create_load(net, b, r2.uniform(0, 1) * s_, r2.uniform(-0.3, 0.5) * s_, scaling=r2.uniform(0.5, 1.5), **kw)
         if r2.random() < 0.3:
             pp.create_sgen(net, b, r2.uniform(0, 1) * s_, r2.uniform(-0.3, 0.3) * s_)
-    if len(net.dcline) and r2.random() < P.get("dcline_oos", 0.3):
+    if len(net.dcline) and P["oos"] > 0 and r2.random() < P.get("dcline_oos", 0.3):
         net.dcline.loc[net.dcline.index[int(r2.integers(0, len(net.dcline)))], "in_service"] = False
     return net
 
